@@ -47,6 +47,8 @@ VARIABLES
     kfFw,       \* firewalls implicated in a KF_TFC root in this epoch
     bpSkip,     \* Fw/Pj nodes whose last value change was not followed by
                 \* backward projection propagation (KF_PBP call sites)
+    armed,      \* node whose executor is armed to panic (None = none)
+    fired,      \* the armed executor ran (and panicked) in the current request
     histIn,     \* sequence of committed input functions (one per commit)
     crashed,    \* the engine was reopened on a crash prefix of its store
     viol,       \* sequence of violation records
@@ -55,6 +57,7 @@ VARIABLES
 obsVars == <<prog, inputs, pend, insess, refreshing, world, sample, pendSample,
              epoch, live, snap, lastRun, ran, running, tainted, outLast, outPrev,
              kfTaint, nested, topDone, bpSkip, spSeen, kfFw, kfHard, histIn, crashed,
+             armed, fired,
              viol, stats>>
 
 N == Len(prog.nodes)
@@ -93,6 +96,8 @@ InitFor(p) ==
     /\ kfHard = [n \in 1..Len(p.nodes) |-> ""]
     /\ histIn = <<>>
     /\ crashed = FALSE
+    /\ armed = None
+    /\ fired = FALSE
 
 (* Environment of source nodes under a given input snapshot.               *)
 EnvOf(inp) ==
@@ -200,7 +205,7 @@ sessVars == <<inputs, pend, insess, refreshing, sample, pendSample, epoch>>
 rdrVars  == <<live, snap>>
 runVars  == <<lastRun, ran, running, tainted, outLast, outPrev>>
 kfVars   == <<kfTaint, nested, topDone, bpSkip, spSeen, kfFw, kfHard>>
-crVars   == <<histIn, crashed>>
+crVars   == <<histIn, crashed, armed, fired>>
 
 Begin(idx) ==
     /\ insess' = TRUE
@@ -266,7 +271,7 @@ Commit(idx) ==
                  ELSE Append(histIn, [n \in Ids |-> IF pend[n] # None THEN pend[n] ELSE inputs[n]])
     /\ crashed' = crashed
     /\ UNCHANGED <<prog, world, rdrVars, lastRun, running, tainted, outLast, outPrev,
-                   nested, topDone, bpSkip, kfHard>>
+                   nested, topDone, bpSkip, kfHard, armed, fired>>
 
 Tracked(idx, t) ==
     /\ live' = live \cup {t}
@@ -283,7 +288,9 @@ DropTracked(idx, t) ==
 Query(idx, t, n, v) ==
     /\ LET want == ValAt(t)[n]
            label == IF v # want THEN KfOfUser(n) ELSE ""
-       IN /\ viol' = IF v # want /\ Judged(snap[t])
+       IN /\ viol' = IF armed # None /\ fired
+                     THEN Append(viol, V(idx, "panic_swallowed", n, 0, 0))
+                     ELSE IF v # want /\ Judged(snap[t])
                      THEN Append(viol, VK(idx, "query_value", n, v, want, label))
                      ELSE viol
           \* n stays verified with this value for the rest of the epoch
@@ -392,7 +399,9 @@ ExecCut(idx, n) ==
     /\ tainted' = tainted \cup {n}
     /\ lastRun' = [lastRun EXCEPT ![n] = [has |-> FALSE, reads |-> <<>>]]
     /\ stats' = Bump("cyc")
-    /\ UNCHANGED <<prog, sessVars, world, rdrVars, ran, outLast, outPrev, kfVars, viol, crVars>>
+    /\ fired' = (fired \/ n = armed)
+    /\ UNCHANGED <<prog, sessVars, world, rdrVars, ran, outLast, outPrev, kfVars, viol,
+                   histIn, crashed, armed>>
 
 (* C07: a clean restart changes nothing observable.                        *)
 Restart(idx) ==
@@ -408,6 +417,7 @@ Restart(idx) ==
 Crash(idx) ==
     /\ crashed' = TRUE
     /\ histIn' = histIn
+    /\ armed' = None /\ fired' = FALSE
     /\ insess' = FALSE /\ refreshing' = FALSE
     /\ pend' = NoneFn /\ pendSample' = NoneFn
     /\ sample' = NoneFn
@@ -449,8 +459,23 @@ Hang(idx) ==
 
 (* C05: a panic reaches the caller only if an executor panicked.            *)
 QueryPanicked(idx, n) ==
-    /\ viol' = Append(viol, V(idx, "query_panicked", n, 0, 0))
-    /\ UNCHANGED <<prog, sessVars, world, rdrVars, runVars, kfVars, crVars, stats>>
+    /\ viol' = IF armed # None /\ fired THEN viol
+               ELSE Append(viol, V(idx, "query_panicked", n, 0, 0))
+    /\ fired' = FALSE
+    /\ UNCHANGED <<prog, sessVars, world, rdrVars, runVars, kfVars, histIn, crashed, armed, stats>>
+
+Arm(idx, n) ==
+    /\ armed' = n /\ fired' = FALSE
+    /\ UNCHANGED <<prog, sessVars, world, rdrVars, runVars, kfVars, histIn, crashed, viol, stats>>
+
+Disarm(idx) ==
+    /\ armed' = None /\ fired' = FALSE
+    /\ UNCHANGED <<prog, sessVars, world, rdrVars, runVars, kfVars, histIn, crashed, viol, stats>>
+
+(* the user dropped a request (or commit) future before it completed        *)
+Cancelled(idx) ==
+    /\ stats' = Bump("restarts")
+    /\ UNCHANGED <<prog, sessVars, world, rdrVars, runVars, kfVars, crVars, viol>>
 
 CrashPanic(idx) ==
     /\ viol' = Append(viol, V(idx, "crash_open_panic", 0, 0, 0))
